@@ -67,6 +67,8 @@ class Clock:
         return self.epoch0 + (self.loop._vnow - LOOP0) + self.offset
 
     def sleep(self, secs: float) -> None:       # replaces blocking time.sleep
+        if secs < 0:
+            raise ValueError('sleep length must be non-negative')      # as time.sleep does
         if secs > 0:
             self.loop._vnow += secs
 
